@@ -2,11 +2,11 @@ package main
 
 import (
 	"bytes"
-	"fmt"
 	"crypto"
 	stded "crypto/ed25519"
 	"crypto/sha512"
 	"errors"
+	"fmt"
 	"io"
 	"math/big"
 
@@ -142,6 +142,14 @@ func recC02(c *ctx) {
 		}
 		c.w.Emit(e)
 
+		// GenerateKey(reader) = NewKeyFromSeed(the 32 bytes read); accessors
+		if i%4 == 0 {
+			gp, gk, gerr := ed25519.GenerateKey(bytes.NewReader(seed))
+			okacc := gerr == nil && bytes.Equal(gk, priv) && bytes.Equal(gp, pub) && bytes.Equal(priv.Seed(), seed) &&
+				bytes.Equal(priv.Public().(ed25519.PublicKey), pub) && priv.Equal(gk) && ed25519.PublicKey(pub).Equal(gp) &&
+				bytes.Equal(priv[:32], seed)
+			c.w.Emit(vt.Ev{"op": "sigcheck", "cfg": c.cfg, "kind": "accept", "res": []bool{okacc}, "seed": vt.B(seed), "what": "GenerateKey/Seed/Public/Equal"})
+		}
 		// every preset, singly and in one mixed batch
 		var res []bool
 		bv := ed25519.NewBatchVerifier()
